@@ -94,6 +94,28 @@ def drive (v : List Rat) : List Rat :=
   let n1 := (v.map rabs).sum
   v.map fun x => guardDiv (n2 * sgn x) n1
 
+/-! ### admissible outputs (what the property fixes per coordinate, independent of the draw) -/
+
+/-- the two admissible values of a uniformly quantised coordinate: the grid levels just below and
+just above `x` on the `(L-1)`-grid between `mn` and `mx` (both `mn` for a constant vector). -/
+def admCoord (L : Nat) (mn mx x : Rat) : Rat × Rat :=
+  if mx = mn then (mn, mn)
+  else
+    let k : Rat := (L : Rat) - 1
+    let t := (x - mn) * k / (mx - mn)
+    (mn + (mx - mn) * (t.floor : Int) / k, mn + (mx - mn) * (t.ceil : Int) / k)
+
+def admUniform (L : Nat) (v : List Rat) : List (Rat × Rat) := v.map (admCoord L (minL v) (maxL v))
+
+/-- binary quantizer: the minimum or the maximum -/
+def admBinary (v : List Rat) : List (Rat × Rat) := v.map fun _ => (minL v, maxL v)
+
+/-- TernGrad: `0` or `s·sign c` (`c` the clipped coordinate, `s` the largest clipped magnitude) -/
+def admTern (σ : Rat) (v : List Rat) : List (Rat × Rat) :=
+  let c := v.map (clipCoord σ)
+  let m := maxL (c.map rabs)
+  c.map fun y => (0, m * sgn y)
+
 /-! ### Walsh–Hadamard rotation (unnormalised; C18 owns the transform itself) -/
 
 def bitSign (a b : Nat) : Int := if a % 2 = 1 ∧ b % 2 = 1 then -1 else 1
